@@ -93,6 +93,13 @@ func runC07(c *mon.Ctx) {
 			}
 			rc += "+second-key-for-sp"
 		}
+		if r.IntN(2) == 0 {
+			// the SP's certificate identified by the other means KeyInfo offers (subject name, issuer and serial, key
+			// identifier, key name, key value), next to whatever certificate is named: a named certificate that is not
+			// the SP's stays a different recipient
+			spec.Hints, spec.HintsFirst = w.SPEnc, r.IntN(2) == 0
+			rc += "+sp-named-by-other-means"
+		}
 		genuine := sim.GenuineAssertion(w.Env, fmt.Sprintf("_g%08x", r.Uint32()))
 		genuine.Sig = sim.DefaultSig(signer.Key, signer)
 		var plain string
@@ -175,6 +182,16 @@ func runC07(c *mon.Ctx) {
 		if rc == "bundle-ca" || r.IntN(6) == 0 {
 			sp.SPKeyStore = dsig.TLSCertKeyStore(tls.Certificate{Certificate: [][]byte{w.SPEnc.DER, bundleCA.DER}, PrivateKey: w.SPEnc.Key.RSA()})
 		}
+		opaque := r.IntN(8) == 0
+		if opaque {
+			// a key the SP holds only behind crypto.Signer / crypto.Decrypter (HSM style), given through the setter:
+			// whether or not the library can decrypt with it, what must be refused is refused
+			sp.SPKeyStore = nil
+			if err := sp.SetSPKeyStore(&saml2.KeyStore{Signer: OpaqueKey{w.SPEnc.Key.RSA()}, Cert: w.SPEnc.DER}); err != nil {
+				sp.SPKeyStore = &RSAKeyStore{C: w.SPEnc}
+				opaque = false
+			}
+		}
 		sp.AllowMissingAttributes = true
 		var res *types.Response
 		var verr error
@@ -184,7 +201,8 @@ func runC07(c *mon.Ctx) {
 			continue
 		}
 		cs.Nontrivial(cs.Description())
-		shouldAccept := pk == "idp-signed" && place == "direct" && (rc == "none" || rc == "sp") && !attackerSignsResponse
+		rc0, _, _ := strings.Cut(rc, "+sp-named")
+		shouldAccept := pk == "idp-signed" && place == "direct" && (rc0 == "none" || rc0 == "sp") && !attackerSignsResponse
 		switch {
 		case verr == nil && !shouldAccept:
 			cs.Outcome("wrongly-accepted")
@@ -199,6 +217,8 @@ func runC07(c *mon.Ctx) {
 				who = res.Assertions[0].Subject.NameID.Value
 			}
 			cs.Violation("encrypted-untrusted-accepted:"+why, "accepted (%s): %d assertion(s), first NameID %q", why, len(res.Assertions), who)
+		case verr != nil && shouldAccept && opaque:
+			cs.Outcome("rejected-with-opaque-key")
 		case verr != nil && shouldAccept:
 			cs.Outcome("wrongly-rejected")
 			cs.Violation("replayed-signed-assertion-rejected", "an IdP-signed assertion encrypted to the SP as a direct child was rejected: %v", verr)
